@@ -97,6 +97,17 @@ class P(Prop):
         if via_file:
             with tempfile.TemporaryDirectory(prefix="cgverif_") as td:
                 path = os.path.join(td, c.name + ".v")
+                # call history: the same path held another design a moment ago (same size: one gate retyped) and was read
+                other = c.copy()
+                flip = [n for n in other.graph.nodes if other.type(n) in ("and", "nand", "xor", "nor")]
+                if flip:
+                    n0 = self.rng.choice(sorted(flip))
+                    other.set_type(n0, {"and": "xor", "xor": "and", "nand": "xnor", "nor": "xor"}[other.type(n0)])
+                    if call(cg.to_file, other, path, "verilog", beh)[0] == "ok":
+                        o0, r0 = call(cg.from_file, path, None, None, bbs)
+                        if o0 == "ok":
+                            gen.poison_result(self.rng, r0)
+                        self.stats.bump("history:path-rewritten")
                 o, _ = call(cg.to_file, c, path, "verilog", beh)
                 if o != "ok":
                     self.fail("search", f"to_file-raised-{o}", f"to_file raised {o}", case)
@@ -109,6 +120,11 @@ class P(Prop):
             if o != "ok":
                 self.fail("search", f"write-raised-{o}", f"circuit_to_verilog raised {o}", case)
                 return
+            if self.rng.random() < 0.25:
+                o0, r0 = call(cg.io.verilog_to_circuit, text, c.name, False, bbs)
+                if o0 == "ok":
+                    gen.poison_result(self.rng, r0)
+                    self.stats.bump("history:earlier-result-edited")
             with synthetic_names() as made:
                 o, c2 = call(cg.io.verilog_to_circuit, text, c.name, False, bbs)
             captured = set(made) & set(c.graph.nodes)
@@ -165,6 +181,7 @@ class P(Prop):
             c = self.gen_case()
             self.oracle(c, False)
             self.oracle(c, True)
+            self.again_after_edit(c, lambda: (self.oracle(c, False), self.oracle(c, True)), p=0.2)
             if i % 5 == 0:
                 self.oracle(c, i % 2 == 0, via_file=True)
             if self.too_many():
